@@ -14,7 +14,7 @@ TRUSTED_BASE = [
     "PyYAML configuration of the schema loader (E6)",
 ]
 ASSUMPTIONS = ["index maps and parameter lists are explored up to 2 entries (labelled bounded); the cache's representation invariant is inductive over insertions, so it holds for every access order"]
-NOT_DECIDED = ["resolve_all recursion limit", "YAML vs JSON scalar keys (library configuration)", "security parameters (process_definitions)"]
+NOT_DECIDED = ["resolve_all beyond its recursion budget (pruning of optional references)", "YAML vs JSON scalar keys (library configuration)", "OpenAPISecurityProcessor.get_security_definitions (references inside securitySchemes)"]
 EXPLANATION = ("OperationCache: representation invariant (every index points into the operation list, the three lookups return what was inserted, other entries untouched); "
                "the operationId index records, for every operation, the scope of ITS OWN path item; the effective-parameter rule (operation-level wins over path-level for the "
                "same name and location) is a postcondition on what is handed to collect_parameters.")
@@ -674,3 +674,49 @@ R.contract(
     bounded_note="caches with up to 2 stored definitions",
     replayable=False,
 )
+
+
+# ------------------------------------------------------------------------------------------------- the security parameters themselves (process_definitions above decides WHICH schemes; here: what each adds)
+def _add_parameter_recorder(it, obj, a, k):
+    it.ghost["added"] = it.ghost.get("added", []) + [a[0]]
+    return None
+
+
+R.nominal_methods["spec:OpCollectingParameters"] = {"add_parameter": _add_parameter_recorder}
+for _proc, _http_name, _pcls in (("BaseSecurityProcessor", "basic", "OpenAPI20Parameter"), ("OpenAPISecurityProcessor", "http", "OpenAPI30Parameter")):
+    _is3 = _proc == "OpenAPISecurityProcessor"
+    _expected_key = ("{'name': definition['name'], 'required': True, 'in': definition['in'], 'schema': {'type': 'string'}}" if _is3
+                     else "{'name': definition['name'], 'required': True, 'in': definition['in'], 'type': 'string'}")
+    R.contract(
+        SEC + "BaseSecurityProcessor.process_api_key_security_definition",
+        variant="parameter:" + _proc,
+        prop="C08",
+        args={"self": Obj(SEC + _proc), "definition": DictOf(required={"type": Const("apiKey"), "name": Str, "in": Choice("header", "query", "cookie")}, optional={"description": Const("informative")}),
+              "operation": Obj("spec:OpCollectingParameters")},
+        ghost={"added": []},
+        raises=[],
+        ensures={
+            # the API key becomes a REQUIRED string parameter with the scheme's own name, in the scheme's own location
+            "one_required_string_parameter_named_and_located_as_the_scheme_says": "length(ghost('added')) == 1 and is_instance(ghost('added')[0], '" + _pcls + "') and ghost('added')[0].definition == " + _expected_key,
+        },
+        replayable=False,
+    )
+    _expected_http = ("{'name': 'Authorization', 'in': 'header', 'required': True, 'schema': {'type': 'string', 'format': auth_format(definition)}}" if _is3
+                      else "{'name': 'Authorization', 'in': 'header', 'required': True, 'type': 'string', 'format': auth_format(definition)}")
+    R.contract(
+        SEC + "BaseSecurityProcessor.process_http_security_definition",
+        variant="parameter:" + _proc,
+        prop="C08",
+        args={"self": Obj(SEC + _proc), "definition": OneOf(DictOf(required={"type": Const(_http_name)}, optional={"scheme": Choice("basic", "Bearer")}),
+                                                              DictOf(required={"type": Const("apiKey"), "name": Str, "in": Const("header")}), DictOf(required={"type": Const("oauth2")})),
+              "operation": Obj("spec:OpCollectingParameters")},
+        ghost={"added": []},
+        raises=[],
+        ensures={
+            # an HTTP authentication scheme becomes a REQUIRED `Authorization` header whose format names the scheme (lower-cased; `basic` by default); other scheme types add nothing here
+            "http_schemes_add_a_required_authorization_header": "(length(ghost('added')) == 1 and is_instance(ghost('added')[0], '" + _pcls + "') and ghost('added')[0].definition == " + _expected_http + ") "
+                                                                "if definition['type'] == '" + _http_name + "' else length(ghost('added')) == 0",
+        },
+        replayable=False,
+    )
+R.spec_funcs["auth_format"] = lambda it, d: "_" + (d["scheme"].lower() if "scheme" in d else "basic") + "_auth"
